@@ -79,7 +79,12 @@ def compute_offsets(cursor, reference_zeta_mm):
 
     reference_zeta_off_grid = (
         reference_zeta_mm is not None
-        and not np.allclose(reference_zeta_mm % delta_z_mm, 0)
+        and not np.isclose(
+            reference_zeta_mm / delta_z_mm,
+            round(reference_zeta_mm / delta_z_mm),
+            rtol=0,
+            atol=1e-6,
+        )
     )
     if reference_zeta_off_grid:
         raise ValueError(
@@ -87,7 +92,7 @@ def compute_offsets(cursor, reference_zeta_mm):
             'zeta step {} mm'.format(reference_zeta_mm, delta_z_mm)
         )
     if reference_zeta_mm is not None:
-        reference_index = int(reference_zeta_mm / delta_z_mm)
+        reference_index = int(round(reference_zeta_mm / delta_z_mm))
     else:
         reference_index = max(head_mapping.keys())
 
